@@ -308,7 +308,7 @@ def flow_start(check: core.Check) -> dict:
     def tlc_cov():
         return core.run_tlc("ConstraintFlow", "ConstraintFlow.cov.cfg", workers=2, coverage=True, timeout=900)
 
-    ex = ThreadPoolExecutor(4)
+    ex = ThreadPoolExecutor(6)
     return {"t0": time.time(), "ex": ex, "slices": [ex.submit(tlc_slice, n) for n in slices], "cov": ex.submit(tlc_cov),
             "sens": [ex.submit(tlc_sens, it) for it in sens]}
 
